@@ -1,5 +1,5 @@
 (** C09 - Foreign-key policy: no parent is touched ahead of its child's pending errors. *)
-From Hermes Require Import Model.Objects Model.Client Proofs.Client Proofs.ClientFK.
+From Hermes Require Import Model.Objects Model.Client Proofs.Client Proofs.ClientFK Proofs.ClientParents.
 
 (** An event of a kind covered by the policy, on an object registered as a parent by some
     queue entry, invokes no handler at all: the handler log and the invocation counter are
@@ -16,6 +16,34 @@ Theorem C09_parent_event_is_deferred : forall c outcome f st rev,
    exists e, queue (fst r) = queue st ++ [e] /\ q_remote e = Some rev /\ q_num e = q_next_num (queue st)).
 Proof. exact parent_event_deferred. Qed.
 Print Assumptions C09_parent_event_is_deferred.
+
+(** "directly or transitively": with types declared parents-first, the parents an entry
+    registers are exactly the objects its child reaches by following foreign keys through
+    objects present in the local cache, at any depth ... *)
+Theorem C09_registered_parents_are_all_ancestors : forall c live rank, parents_first c rank -> forall t o p,
+  In p (parents_of c live (S (length (cc_types c))) t o) <-> exists n, reach c live n t o p.
+Proof. exact registered_parents_exact. Qed.
+Print Assumptions C09_registered_parents_are_all_ancestors.
+(** ... and they are registered at the moment the entry is appended (the child being known to
+    the local cache or to its expected-state copy): the first theorem then applies to an event
+    on any of them *)
+Theorem C09_append_registers_every_ancestor : forall c st remote lev msg o n p rank,
+  cc_remed c = RDisabled -> find_ctype c (ce_t lev) <> None ->
+  (l_live st !! ce_id lev = Some o \/ (l_live st !! ce_id lev = None /\ lc_live st !! ce_id lev = Some o)) ->
+  parents_first c rank -> reach c (l_live st) n (ce_t lev) o p ->
+  q_is_parent (queue (q_append c st remote lev msg)) p = true.
+Proof. exact q_append_registers. Qed.
+Print Assumptions C09_append_registers_every_ancestor.
+(** a chain of three types: the grandparent is registered, unless the parent is absent from the
+    cache (finding F21: the link is followed through the cached parent) *)
+Definition ch_cfg : ccfg :=
+  CCfg [CType 1 [(10%N, 1%N)] [] 99; CType 2 [(10%N, 1%N); (11%N, 2%N)] [(11%N, 1%N)] 99;
+        CType 3 [(10%N, 1%N); (12%N, 2%N)] [(12%N, 2%N)] 99] None FKOnRemove RDisabled 99 [1%N; 2%N; 3%N].
+Definition ch_w : world := {[ (1%N, 7%Z) := {[ 10%N := VInt 7 ]}; (2%N, 8%Z) := {[ 10%N := VInt 8; 11%N := VInt 7 ]} ]}.
+Example C09_grandparent_registered :
+  parents_of ch_cfg ch_w 4 3 {[ 10%N := VInt 9; 12%N := VInt 8 ]} = [(2%N, 8%Z); (1%N, 7%Z)]
+  /\ parents_of ch_cfg (delete (2%N, 8%Z) ch_w) 4 3 {[ 10%N := VInt 9; 12%N := VInt 8 ]} = [].
+Proof. vm_compute. split; reflexivity. Qed.
 
 (** the simulated pass used when queueing never invokes a handler nor touches the queue *)
 Theorem C09_simulation_is_silent : forall c outcome f st rev lev enq,
